@@ -302,6 +302,18 @@ var par1Stems = []string{"f%d.dat", "data%d.bin", "with space %d.txt", "héllo%d
 // inside the name)
 var baseNames = []string{"set", "my set", "archive.v1", "x", "Set-2_b", "backup.part1", "x.par2", "a.vol01+02", "old.p01.new", "100% done", "a%sb%dc%v"}
 
+// nameConflicts reports whether cand equals an existing name, lies below
+// an existing file's name taken as a directory, or is itself a directory
+// prefix of an existing name.
+func nameConflicts(files []ref.Protected, cand string) bool {
+	for _, f := range files {
+		if f.Name == cand || strings.HasPrefix(cand, f.Name+"/") || strings.HasPrefix(f.Name, cand+"/") {
+			return true
+		}
+	}
+	return false
+}
+
 // GenWorld draws a file set and puts it on a fresh simulated disk.
 func GenWorld(r *Run, o GenOpts) *World {
 	t := r.T
@@ -486,6 +498,12 @@ func GenWorld(r *Run, o GenOpts) *World {
 				name = cand
 				r.Probe("protected-name-extends-another")
 			}
+		}
+		// no file may sit where another file's directory has to be (the
+		// simulated disk would not mind, a real one refuses)
+		for tries := 0; nameConflicts(w.Files, name); tries++ {
+			name = fmt.Sprintf("u%d-%d.dat", i, tries)
+			r.Probe("name-conflict-avoided")
 		}
 		var size int
 		S := w.S
